@@ -7,6 +7,13 @@ import Refine.Lemmas.CellStore
 
   Models: `Refine/Model/NodeIds.lean`, `Refine/Model/CellStore.lean` (tied to the C by the `nodecell`
   streams).  Invariants and helper lemmas: `Refine/Lemmas/NodeIds.lean`, `Refine/Lemmas/CellStore.lean`.
+  Modelled and tied to the C by the `nodecell` streams (and checked by their oracles) but *without* a theorem
+  here: `ref_node_compact/stable_compact/pack` ("packing renumbers without changing content":
+  `pack_content : abs (pack o2n n2o s) = rename o2n (abs s)` is not proved), `ref_cell_compact/pack`,
+  `ref_cell_has_side`, `ref_cell_node_list_around`, `ref_cell_id_list_around`.  The heap sort used by
+  `rebuild_sorted_global` / `add_many` is the literal C loop passed through a proved checker
+  (`sortIdx`, see the model); its own correctness is C14 part A.
+
   Every theorem below is unbounded (all states, all sequences) and fully proved (axioms ⊆ propext, Classical.choice, Quot.sound).
 -/
 namespace Refine.Props.C14NodeCell
@@ -164,6 +171,79 @@ theorem node_inv_all_sequences (ops : List Op) : NodeInv (ops.foldl step create)
   induction ops with
   | nil => intro s h; exact h
   | cons o rest ih => intro s h; exact ih _ (node_step_preserves h o)
+
+/-- operations that are safe on the weaker invariant (no use of the sorted arrays) -/
+inductive WOp
+  | remove (v : Int) | removeWithoutGlobal (v : Int) | removeInvalidatesSorted (v : Int)
+  | removeWithoutGlobalInvalidatesSorted (v : Int)
+  | nextGlobal | pushUnused (g : Int) | popUnused | initNGlobal (k : Int)
+
+def wstep (s : NodeIds) : WOp → NodeIds
+  | .remove v => (s.remove v).2
+  | .removeWithoutGlobal v => (s.removeWithoutGlobal v).2
+  | .removeInvalidatesSorted v => (s.removeInvalidatesSorted v).2
+  | .removeWithoutGlobalInvalidatesSorted v => (s.removeWithoutGlobalInvalidatesSorted v).2
+  | .nextGlobal => s.nextGlobal.2.2
+  | .pushUnused g => s.pushUnused g
+  | .popUnused => s.popUnused.2.2
+  | .initNGlobal k => s.initNGlobal k
+
+theorem WeakInv_congr {a b : NodeIds} (h : WeakInv a) (hg : b.global = a.global) (hb : b.blank = a.blank)
+    (hn : b.n = a.n) : WeakInv b :=
+  ⟨h.free.congr hg hb hn, by intro v w; rw [hg]; exact h.distinct v w⟩
+
+/-- the free-list half of the invariant (and distinctness of live globals) survives **every** removal,
+    also the ones that are applied while the sorted arrays are stale (`remove` then either fails with
+    `REF_NOT_FOUND`, state unchanged, or frees the slot), and every pool operation -/
+theorem node_weak_step_preserves {s : NodeIds} (h : WeakInv s) (o : WOp) : WeakInv (wstep s o) := by
+  cases o with
+  | remove v =>
+    simp only [wstep, remove]
+    cases hv : s.validSlot v with
+    | false => exact h
+    | true =>
+      obtain ⟨_, hv2⟩ := validSlot_iff.1 hv
+      simp only [Bool.not_true, Bool.false_eq_true, if_false]
+      split
+      · exact h
+      · exact freeSlot_WeakInv h hv2 rfl rfl rfl
+  | removeWithoutGlobal v =>
+    simp only [wstep, removeWithoutGlobal]
+    cases hv : s.validSlot v with
+    | false => exact h
+    | true =>
+      obtain ⟨_, hv2⟩ := validSlot_iff.1 hv
+      simp only [Bool.not_true, Bool.false_eq_true, if_false]
+      split
+      · exact h
+      · exact freeSlot_WeakInv h hv2 rfl rfl rfl
+  | removeInvalidatesSorted v =>
+    cases hv : s.validSlot v with
+    | true => exact (removeInvalidatesSorted_WeakInv h hv).2
+    | false => simp [wstep, removeInvalidatesSorted, hv, h]
+  | removeWithoutGlobalInvalidatesSorted v =>
+    cases hv : s.validSlot v with
+    | true => exact (removeWithoutGlobalInvalidatesSorted_WeakInv h hv).2
+    | false => simp [wstep, removeWithoutGlobalInvalidatesSorted, hv, h]
+  | nextGlobal =>
+    obtain ⟨a, b, c, _⟩ := nextGlobal_keeps s
+    exact WeakInv_congr h a b c
+  | pushUnused g => exact WeakInv_congr h rfl rfl rfl
+  | popUnused =>
+    simp only [wstep, popUnused]; split
+    · exact h
+    · exact WeakInv_congr h rfl rfl rfl
+  | initNGlobal k => exact WeakInv_congr h rfl rfl rfl
+
+/-- `WeakInv` along every sequence of removals / pool operations starting from any `NodeInv` state;
+    `rebuild_sorted_global` then restores `NodeInv` (`node_rebuild_restores`) -/
+theorem node_weak_inv_all_sequences {s : NodeIds} (h : NodeInv s) (ops : List WOp) :
+    WeakInv (ops.foldl wstep s) ∧ NodeInv (ops.foldl wstep s).rebuild := by
+  suffices ∀ t, WeakInv t → WeakInv (ops.foldl wstep t) from
+    ⟨this s h.weak, rebuild_NodeInv (this s h.weak)⟩
+  induction ops with
+  | nil => intro t ht; exact ht
+  | cons o rest ih => intro t ht; exact ih _ (node_weak_step_preserves ht o)
 
 /-! ## NodeIds: refinement to `abs s = (live : global ↦ slot, pool of reusable ids)` -/
 
